@@ -133,6 +133,35 @@ func c01Chunks(p *core.Prog, r *core.Report) {
 			}
 		})
 		ok := panicOp == token.LEQ && keepOp == token.GTR
+		if panicOp == token.LEQ && keepOp == token.ILLEGAL {
+			// the keep-open return is not guarded by a single dominating test
+			// (e.g. `if remaining <= hdr { flush … }; return nil`): decide it on
+			// paths instead - assuming remaining <= hdr, no successful return
+			// is reachable without flushing the fragment
+			isFlush := func(i ssa.Instruction) bool { _, is := core.IsCall(i, "fragmentSender.flushFragment"); return is }
+			res := core.ReachAvoiding(cl, nil, func(i ssa.Instruction) bool {
+				ret, isRet := i.(*ssa.Return)
+				return isRet && core.IsNilConst(core.ReturnValues(ret)[0])
+			}, isFlush, func(a, b *ssa.BasicBlock) bool {
+				ifi, isIf := a.Instrs[len(a.Instrs)-1].(*ssa.If)
+				if !isIf || a.Succs[0] == a.Succs[1] {
+					return false
+				}
+				cmps, _ := core.ExpandCond(ifi.Cond, a.Succs[0] == b)
+				for _, c := range cmps {
+					if !isRemaining(c.X) {
+						continue
+					}
+					if k, isK := core.ConstInt(c.Y); isK && k == hdr && c.Op == token.GTR {
+						return true // contradicts the assumption remaining <= hdr
+					}
+				}
+				return false
+			})
+			if !res.Found {
+				ok, keepOp = true, token.GTR
+			}
+		}
 		r.Check(ok, "C01-R4", fname(cl), "keep open iff BytesRemaining() > chunkHeaderSize; BeginArgument requires the same", p.Pos(cl.Pos()),
 			"Close keeps the fragment under '>' and BeginArgument panics under '<=' of the same quantity and constant", fmt.Sprintf("keep-open guard (%v) is not the negation of the next argument's panic guard (%v)", keepOp, panicOp))
 	}
@@ -219,13 +248,15 @@ func c01Flags(p *core.Prog, r *core.Report) {
 			continue
 		}
 		ok := false
-		core.EachInstr(f, func(i ssa.Instruction) {
-			if bo, isB := i.(*ssa.BinOp); isB && bo.Op == token.AND {
-				if k, isK := core.ConstInt(bo.Y); isK && k == mask {
-					ok = true
+		for _, g := range p.FuncsDeep(f, 2) {
+			core.EachInstr(g, func(i ssa.Instruction) {
+				if bo, isB := i.(*ssa.BinOp); isB && bo.Op == token.AND {
+					if k, isK := core.ConstInt(bo.Y); isK && k == mask {
+						ok = true
+					}
 				}
-			}
-		})
+			})
+		}
 		r.Check(ok, "C01-R3", fname(f), "tests the same more-fragments mask", p.Pos(f.Pos()), fmt.Sprintf("& %#x", mask), "more-fragments test uses a different mask")
 	}
 }
@@ -387,6 +418,55 @@ func c01Reader(p *core.Prog, r *core.Report) {
 			okLast = true
 		}
 	})
+	if !okLast {
+		// the two conditions may not dominate the successful return as plain
+		// facts (`if last && (chunks || more) { fail }; if last { ok }`): decide
+		// on paths - assuming this is the last argument and chunks (resp.
+		// fragments) remain, no successful return is reachable
+		isLastV := func(v ssa.Value) bool {
+			bo, ok := v.(*ssa.BinOp)
+			if !ok || bo.Op != token.EQL || core.LoadedField(bo.X) != stateF {
+				return false
+			}
+			k, isK := core.ConstInt(bo.Y)
+			return isK && d.Of(k) == d.OfName("fragmentingReadInLastArgument")
+		}
+		reach := func(chunks bool) bool {
+			return core.ReachAvoiding(f, nil, isNilRet, nil, func(a, b *ssa.BasicBlock) bool {
+				ifi, isIf := a.Instrs[len(a.Instrs)-1].(*ssa.If)
+				if !isIf || a.Succs[0] == a.Succs[1] {
+					return false
+				}
+				cmps, bools := core.ExpandCond(ifi.Cond, a.Succs[0] == b)
+				for _, x := range bools {
+					if isLastV(x.V) && !x.Pol {
+						return true // contradicts "last argument"
+					}
+					if !chunks && core.LoadedField(x.V) == moreF && !x.Pol {
+						return true // contradicts "more fragments follow"
+					}
+				}
+				for _, c := range cmps {
+					if core.LoadedField(c.X) == stateF {
+						if k, isK := core.ConstInt(c.Y); isK && d.Of(k) == d.OfName("fragmentingReadInLastArgument") && c.Op == token.NEQ {
+							return true
+						}
+					}
+					if chunks {
+						if lx := lenOperand(c.X); lx != nil && core.LoadedField(lx) == remF {
+							if k, isK := core.ConstInt(c.Y); isK && k == 0 && (c.Op == token.LEQ || c.Op == token.EQL || c.Op == token.LSS) {
+								return true // contradicts "chunks remain"
+							}
+						}
+					}
+				}
+				return false
+			}).Found
+		}
+		if !reach(true) && !reach(false) {
+			okLast = true
+		}
+	}
 	r.Check(okLast, "C01-R7", fname(f), "last argument closes successfully only with no chunks and no fragments left", p.Pos(f.Pos()), "nil return guarded by len(remainingChunks)==0 && !hasMoreFragments", "the reader can report the message complete while chunks or fragments remain")
 }
 
